@@ -1257,9 +1257,12 @@ def instance_timeout_is_own(idx: Index, res: Result, rule: str) -> bool:
     for rdict in recs:
         m = {const_str(k): v for k, v in zip(rdict.keys, rdict.values)}
         tv = m["timeout"]
-        if isinstance(tv, ast.Name):
-            defs = [a_.value for a_ in walk_no_nested(create.node) if isinstance(a_, ast.Assign) and isinstance(a_.targets[0], ast.Name) and a_.targets[0].id == tv.id]
-            tv = defs[-1] if defs else tv
+        for _hop in range(4):          # through local names: timeout = normalised = {...}
+            if isinstance(tv, ast.Name):
+                defs = [a_.value for a_ in walk_no_nested(create.node) if isinstance(a_, ast.Assign) and isinstance(a_.targets[0], ast.Name) and a_.targets[0].id == tv.id]
+                if not defs:
+                    break
+                tv = defs[-1]
         own = isinstance(tv, (ast.Dict, ast.DictComp)) or (isinstance(tv, ast.Call) and call_name(tv) in ("dict", "deepcopy", "copy"))
         shared = isinstance(tv, ast.Attribute) or (isinstance(tv, ast.Name) and tv.id not in params(create.node))
         if shared:
